@@ -1,8 +1,11 @@
 (* Properties/C12.v - ToUnicode / ToASCII mutually inverse on accepted names.  Only statements,
-   closed by `exact`.  The full statement is C12_statement (Proofs/Idna_Hyp.v), relative to AdapterOK and
-   the Punycode round trip PunyRT, outside Known_C12; see theorem_notes in tools/props_d/C12.py. *)
+   closed by `exact`.  The full statement C12_statement (Proofs/Idna_Hyp.v; relative to AdapterOK and the Punycode
+   round trip PunyRT, outside Known_C12) is REFUTED as written (C12_statement_refuted: F-C10-1, a label whose Punycode
+   form is longer than 2000); the corrected statement C12_statement2 (Proofs/Idna_C10b_Stmt.v, also outside
+   Known_C10_long) is not proved; see theorem_notes in tools/props_d/C12.py. *)
 From RU Require Import Base.Prelude Base.Utf8 Base.Utf8Facts Base.U32_c13 Gen.Tables Model.Punycode Model.Uts46
-  Proofs.Idna_Sim Proofs.Idna_Api Proofs.Idna_Known Proofs.Idna_Hyp Proofs.Idna_C12 Proofs.Idna_Tables Proofs.Idna_PunyRT.
+  Proofs.Idna_Sim Proofs.Idna_Api Proofs.Idna_Known Proofs.Idna_Hyp Proofs.Idna_C12 Proofs.Idna_Tables Proofs.Idna_PunyRT
+  Proofs.Idna_C10b_Long Proofs.Idna_C10b_Stmt.
 
 (* the four clauses on names of the fastest tier (lower-case letters and dots), every adapter *)
 Theorem C12_fast_partial : forall A cfg d deny hy p, bytes d -> fast_tier d d = None ->
@@ -75,6 +78,32 @@ Check C12_refuted : exists A d deny hy u,
   to_ascii A false (utf8_encode u) deny hy DIgnore = Err /\
   ui_err (to_unicode A false (utf8_encode u) deny hy) = true.
 Print Assumptions C12_refuted.
+
+(* F-C10-1: outside Known_C12 and Known_C11 the round trip fails as well - C12_statement is false for an adapter that
+   satisfies AdapterOK: ToASCII accepts a label of 1000 ideographs, ToUnicode of the original shows it without error,
+   ToUnicode (and to_user_interface) of the ASCII form report an error (more than 2000 characters after xn--) *)
+Theorem C12_statement_refuted : exists A cfg, AdapterOK A /\ ~ C12_statement A cfg.
+Proof. exact c12_statement_refuted. Qed.
+Check C12_statement_refuted : exists A cfg, AdapterOK A /\ ~ C12_statement A cfg.
+Print Assumptions C12_statement_refuted.
+
+Theorem C12_long_witness :
+  to_ascii lowad false W_C10_long DENY_EMPTY HAllow DIgnore = Ok (false, W_C10_long_A) /\
+  Known_C10_long W_C10_long_A = true /\
+  to_unicode lowad false W_C10_long DENY_EMPTY HAllow = UI false W_C10_long_U false /\
+  ui_err (to_unicode lowad false W_C10_long_A DENY_EMPTY HAllow) = true /\
+  ui_err (to_user_interface lowad false W_C10_long_A DENY_EMPTY HAllow never_unicode) = true.
+Proof.
+  exact (conj (proj1 (proj2 (proj2 (proj2 w_c10_long)))) (conj (proj1 (proj2 (proj2 (proj2 (proj2 (proj2 w_c10_long))))))
+          w_c10_long_unicode)).
+Qed.
+Check C12_long_witness :
+  to_ascii lowad false W_C10_long DENY_EMPTY HAllow DIgnore = Ok (false, W_C10_long_A) /\
+  Known_C10_long W_C10_long_A = true /\
+  to_unicode lowad false W_C10_long DENY_EMPTY HAllow = UI false W_C10_long_U false /\
+  ui_err (to_unicode lowad false W_C10_long_A DENY_EMPTY HAllow) = true /\
+  ui_err (to_user_interface lowad false W_C10_long_A DENY_EMPTY HAllow never_unicode) = true.
+Print Assumptions C12_long_witness.
 
 (* regenerated Punycode prefix test (case-insensitive xn--) and length caps *)
 Theorem C12_consts :
